@@ -6,6 +6,7 @@ CONSTANTS
   Retention = 1
   MinDelay = 10
   QtScale = "2p40"
+  T0 = 1000000
   MaxNow = 23
 INIT Init
 NEXT Next
